@@ -517,4 +517,5 @@ def run(prog, res, tier):
     r2_outparam(prog, res)
     c09.r4_writer_tokens(prog, res)
     c09.r6_enum_item_match(prog, res)
+    c09.r9_lookahead_not_stale(prog, res)
     r4_order(prog, res)
